@@ -139,11 +139,7 @@ func (g *FuncGen) execAlloc(x *ssa.Alloc) {
 		g.assumeZeroStruct(r, et)
 	case aArr:
 		ae := et.Underlying().(*types.Array).Elem()
-		if _, ok := isStruct(ae); ok {
-			unsup("array of structs %s", et)
-		}
-		k := g.sc.elemComp(ae)
-		g.assume(fmt.Sprintf("(= (select %s %s) ((as const (Array Int %s)) %s))", g.get(g.st, k), r, g.sc.sortOf(ae), g.sc.zero(ae)))
+		g.assumeZeroArray(r, ae)
 	case aHeapCell:
 		g.assume(fmt.Sprintf("(= (select %s %s) %s)", g.get(g.st, a.comp), r, g.sc.zero(et)))
 	}
@@ -255,6 +251,29 @@ func (g *FuncGen) execUnOp(x *ssa.UnOp) {
 	default:
 		unsup("unop %s", x.Op)
 	}
+}
+
+// shlConst reports whether v is a left shift by a constant amount.
+func shlConst(v ssa.Value) (int, bool) {
+	if b, ok := v.(*ssa.BinOp); ok && b.Op == token.SHL {
+		if c, ok := constInt(b.Y); ok && c.IsInt64() && c.Int64() < 64 {
+			return int(c.Int64()), true
+		}
+	}
+	return 0, false
+}
+
+// maskConst reports whether v is an AND with a constant of the form 2^m - 1.
+func maskConst(v ssa.Value) (int, bool) {
+	if b, ok := v.(*ssa.BinOp); ok && b.Op == token.AND {
+		if c, ok := constInt(b.Y); ok {
+			return isPow2Minus1(c)
+		}
+		if c, ok := constInt(b.X); ok {
+			return isPow2Minus1(c)
+		}
+	}
+	return 0, false
 }
 
 func isPow2Minus1(v *big.Int) (int, bool) {
@@ -403,6 +422,19 @@ func (g *FuncGen) execBinOp(x *ssa.BinOp) {
 		}
 		e = fmt.Sprintf("(bitand %s (- (- %s) 1))", a, b)
 	case token.OR:
+		// (u << k) | (v & (2^m - 1)) with m <= k: the operands occupy disjoint bits, so OR is addition
+		if k, ok1 := shlConst(x.X); ok1 {
+			if m, ok2 := maskConst(x.Y); ok2 && m <= k {
+				e = fmt.Sprintf("(+ %s %s)", a, b)
+				break
+			}
+		}
+		if k, ok1 := shlConst(x.Y); ok1 {
+			if m, ok2 := maskConst(x.X); ok2 && m <= k {
+				e = fmt.Sprintf("(+ %s %s)", a, b)
+				break
+			}
+		}
 		e = fmt.Sprintf("(bitor %s %s)", a, b)
 		g.assumptions["bitwise OR is uninterpreted in math mode"] = true
 	case token.XOR:
